@@ -721,7 +721,7 @@ func c33Par(n int, deadline time.Time, f func(i int)) bool {
 	return complete
 }
 
-func c33Main(t *testing.T, module string, lfsQuick, lfsThorough []string) {
+func c33Main(t *testing.T, module string, lfsQuick, lfsThorough []string, bposThorough []int) {
 	rep := vh.New(t, "C33")
 	defer rep.Finish()
 	log.SetOutput(io.Discard)
@@ -731,7 +731,7 @@ func c33Main(t *testing.T, module string, lfsQuick, lfsThorough []string) {
 	lfsModes := lfsQuick
 	if vh.Thorough() {
 		maxFaults = 3
-		bposes = []int{1, 3}
+		bposes = bposThorough
 		lfsModes = lfsThorough
 	}
 	rep.Rule = "case = (checkpoint store in {persistent fake with etcd semantics, real noop store}) x (1..3 completed segments x 1..3 records of partition 0 from offset 0, plus one 2-record segment of partition 1 in the listing) x (LFS layout, iceberg only) x every placement of <= k failing collaborator calls among the numbered calls {ListCompleted, ClaimLease, LoadOffset, Decode, LFS fetch, Write, CommitOffset (failing before or after it took effect), RenewLease} made by the real Processor.Run during its first 3 polling cycles, followed by 2 fault-free cycles; outcome signature = full call/result trace + write counts + final checkpoints; non-trivial = at least one injected failure"
@@ -856,7 +856,7 @@ func c33Main(t *testing.T, module string, lfsQuick, lfsThorough []string) {
 // ---------------------------------------------------------------------------
 
 func TestVerifC33(t *testing.T) {
-	c33Main(t, "iceberg", []string{"off", "even"}, []string{"off", "even", "all"})
+	c33Main(t, "iceberg", []string{"off", "even"}, []string{"off", "even", "all"}, []int{1})
 }
 
 func c33IsLfs(mode string, off int64) bool {
